@@ -7,6 +7,7 @@ CONSTANTS
   NVals = 1
   ShiftMag = {1}
   FreeB = FALSE
+  NPart = 12
   Depth = 0
   NWalks = 1
   Seed = 1
